@@ -143,8 +143,10 @@ def layersTok (real : Bool) (ls : List Layer) : String := "[" ++ joinSp (ls.map 
 def sigOf (real : Bool) (p : Pkt) : String :=
   s!"L={layersTok real p.layers} lk={optTok real p.link} nw={optTok real p.net} tr={optTok real p.trans} ap={optTok real p.app} er={optTok real p.failure} tc={if p.truncated then 1 else 0}"
 
-def memTok : MemKind → String
-  | .copy => "copy" | .alias => "alias" | .pool => "pool"
+def memTok (len : Nat) : MemKind → String
+  | .pool => "pool"
+  | .copy => if len == 0 then "-" else "copy"
+  | .alias => if len == 0 then "-" else "alias"
 
 def bit (n k : Nat) : Bool := (n / k) % 2 == 1
 
@@ -168,12 +170,12 @@ def doNew (st : St) (slot opts : Nat) (first : Option DecId) (k : Nat) (real : B
         let tab := tableOf st.scripts
         if lazy then
           let s : Slot := { lazy := true, recover := recover, real := real, built := true, st := newLazy data first, view := dv, pooled := blk.isSome }
-          ({ st with heap := h', slots := upsert slot s st.slots }, s!"ok mem={memTok mk} lazy")
+          ({ st with heap := h', slots := upsert slot s st.slots }, s!"ok mem={memTok src.len mk} lazy")
         else
           match newEager tab fuelC recover data first with
           | .ok p =>
             let s : Slot := { lazy := false, recover := recover, real := real, built := true, st := { p := p, next := none }, view := dv, pooled := blk.isSome }
-            ({ st with heap := h', slots := upsert slot s st.slots }, s!"ok mem={memTok mk} {sigOf real p}")
+            ({ st with heap := h', slots := upsert slot s st.slots }, s!"ok mem={memTok src.len mk} {sigOf real p}")
           | .panic =>
             let s : Slot := { lazy := false, recover := recover, real := real, built := false, st := newLazy data none, view := dv, pooled := false }
             ({ st with heap := h', slots := upsert slot s st.slots }, "panic")
@@ -207,6 +209,13 @@ def stepPkt (st : St) (ws : List String) : St × String :=
     match slot.toNat?, opts.toNat?, k.toNat? with
     | some slot, some opts, some k => doNew st slot opts (some 0) k true
     | _, _, _ => (st, "bad-op")
+  | ["pkt", "rnewx", opts, _ltype, k] =>
+    match opts.toNat?, k.toNat? with
+    | some opts, some k =>
+      match (lookup k st.cbufs).bind (fun cb => st.heap.bufs[cb]?) with
+      | some cbytes => (st, s!"ok mem={memTok cbytes.length (memKind (bit opts 2) (bit opts 4) cbytes.length)}")
+      | none => (st, "bad-op")
+    | _, _ => (st, "bad-op")
   | "pkt" :: "acc" :: slot :: rest =>
     match slot.toNat?.bind (fun s => (lookup s st.slots).map (fun x => (s, x))) with
     | none => (st, "bad-op")
